@@ -442,7 +442,7 @@ def check_wrapper(api: str, M, o: dict, opset: int, tables: dict, stats: Counter
     # ---- T3: IR-level frame (what the passes changed) within the Lean `touches`
     for c in c15_cmp.canon_carrier_changes(NM, Q):
         stats[f"irchanged_{api}_{c}"] += 1
-        if c not in touched and not (api == "convert_version" and capi_path_taken(opset, o)):
+        if c not in touched:
             problems.append(("tie", None, f"{api}{o}: IR entry changed carrier {c} outside the model's frame"))
     return problems
 
@@ -623,9 +623,13 @@ def replay_known(run: core.Run, stats: Counter) -> None:
     m0 = copy.deepcopy(m)
     opt.optimize(m)
     dd = c15_cmp.diff(m0, m)
-    stats["witness_ALIAS"] = int(bool(dd) and all(pred_alias(x) for x in dd))
-    if stats["witness_ALIAS"] and "C15-ALIAS" in open_ids:
-        run.known("C15-ALIAS", f"optimize(ModelProto) modified its argument: {[(x[0], x[2]) for x in dd]}")
+    stats["witness_ALIAS"] = int(bool(dd))
+    if dd:
+        if "C15-ALIAS" in open_ids:
+            run.known("C15-ALIAS", f"optimize(ModelProto) modified its argument: {[(x[0], x[2]) for x in dd]}")
+        else:  # fixed by 0d5ec74: the witness is a must-pass regression case
+            run.violation({"witness": "C15-ALIAS", "model": "c = Constant<value=float[2]{1,2}>(); y = Add(x, c)", "diff": [list(x) for x in dd]},
+                          f"regression of fixed finding C15-ALIAS: optimize(ModelProto) modified its argument: {[(x[0], x[2]) for x in dd]}")
     # FALLBACK
     m = W["C15-FALLBACK"]
     p = copy.deepcopy(m)
@@ -635,9 +639,14 @@ def replay_known(run: core.Run, stats: Counter) -> None:
     q = ir.to_proto(i)
     lostp = [d[0] for d in c15_cmp.hard(c15_cmp.diff(m, p)) if d[1] == "lost"]
     lostq = [d[0] for d in c15_cmp.hard(c15_cmp.diff(m, q)) if d[1] == "lost"]
-    stats["witness_FALLBACK"] = int(bool(lostp) and lostp == lostq)
-    if stats["witness_FALLBACK"] and "C15-FALLBACK" in open_ids:
-        run.known("C15-FALLBACK", f"convert_version(M@20, 19, fallback=True) (onnx C-API path, both entries) loses {lostp}")
+    stats["witness_FALLBACK"] = int(bool(lostp) or bool(lostq))
+    if lostp or lostq:
+        if "C15-FALLBACK" in open_ids:
+            run.known("C15-FALLBACK", f"convert_version(M@20, 19, fallback=True) (onnx C-API path, both entries) loses {lostp}")
+        else:  # fixed by 7ba1077: must-pass regression case
+            run.violation({"witness": "C15-FALLBACK", "model": "Relu@20 with graph/node metadata_props and an input doc_string",
+                           "call": "convert_version(M, 19, fallback=True)", "lost_proto": lostp, "lost_ir": lostq},
+                          f"regression of fixed finding C15-FALLBACK: convert_version(M@20, 19, fallback=True) loses {lostp or lostq}")
 
 
 def replay_refutation_witnesses(stats: Counter) -> None:
